@@ -99,6 +99,7 @@ def rule_r3(facts, col):
     for body in facts.impl_bodies(BLOCK_TRAIT, "work"):
         if body.from_derive:
             continue
+        body = effects.work_view(facts, body, methods=True)     # the count may be computed by a method of the block
         cons = [(bb, t) for bb, t in body.calls_to(effects.CONSUME)]
         prods = [(bb, t) for bb, t in body.calls_to(effects.PRODUCE)]
         for cb, ct in cons:
